@@ -6,11 +6,14 @@ forks into a "raises OSError, nothing changed" outcome, so each effect boundary 
 including a raw write killed half way); `fs_policy` is proved at every effect (who may write which file).
 
 Engine additions made for this file (see also the docstrings there):
-  pyvc/fsmodel.py (new), pyvc/externals.py (hook), pyvc/verifier.py (Contract.fs_inv/fs_policy/fs_opts, fs_method,
-  I.top_env), pyvc/values.py (Path type/value), pyvc/interp.py (Path equality/truth/fresh, extension types `t.fresh`,
-  set literals, bare `raise` inside `finally`, `raise <optional exception>`, ghost fs havoc'd at loop cuts),
-  pyvc/builtins.py (open(), str(Path), Path/file/exception attributes, `with <file>` closes only on python exits,
-  str.encode may raise, crash invariant / effect policy at modular calls).
+  pyvc/fsmodel.py (new), pyvc/externals.py (hook), pyvc/verifier.py (Contract.fs_inv/fs_policy/fs_opts/call_pre,
+  fs_method, I.top_env), pyvc/core.py (Path.choice: demonic choice without solver query), pyvc/values.py (Path
+  type/value), pyvc/concretize.py (Path in counter-models), pyvc/interp.py (Path equality/truth/fresh, extension types
+  `t.fresh`, set literals, bare `raise` inside `finally` re-raises the in-flight exception, `raise <optional exception>`,
+  ghost fs havoc'd at loop cuts, ghost variables visible in specs of inlined functions and in their pre_loop snapshots),
+  pyvc/builtins.py (open(), fs_key(), str(Path), Path/file/exception attributes incl. OSError.errno, `with <file>`
+  closes on python-level exits only and close may raise, str.encode may raise, crash invariant / effect policy /
+  caller-side cut points at modular calls).
 
 Fault alphabet.  Main contracts: OSError at every primitive (mkdir, NamedTemporaryFile, open, write, flush, fsync, close,
 stat, chmod, os.replace, exists, unlink, os.open, os.close), raw write is all-or-error (A-FULLWRITE).  Variants tagged
@@ -25,6 +28,7 @@ fsmodel.declare(R)
 
 AT = "clematis/io/atomic.py:"
 GHOST = dict(fsmodel.GHOST)
+REPLAY = "c08_atomic:replay"      # replay_builders/c08_atomic.py: fault-injected native run of the real function
 
 FINAL = "fs_key(final_path)"
 TMP = "fs_key(tmp_path)"
@@ -35,7 +39,7 @@ R.contract(
     AT + "_make_tmp", "C08",
     types={"final_path": "Path"},
     returns="Path",
-    ghost=GHOST,
+    ghost=GHOST, replay=REPLAY,
     fs_inv=[
         ("existing-files-untouched", "forall((p, 'str'), not (p in fs_tmps), file_same(fs, old(fs), p))"),
         ("temps-are-new-files", "forall((p, 'str'), p in fs_tmps, not (p in old(fs)))"),
@@ -87,7 +91,7 @@ GHOSTS_SAME = "seq_eq(fs_tmps, old(fs_tmps)) and seq_eq(fs_ntfclose, old(fs_ntfc
 R.contract(
     AT + "atomic_replace", "C08",
     types={"tmp_path": "Path", "final_path": "Path", "retries": "int", "backoff_ms": "int"},
-    ghost=GHOST,
+    ghost=GHOST, replay=REPLAY,
     requires=[("tmp-not-final", "tmp_path != final_path"), ("backoff-nonneg", "backoff_ms >= 0")],
     fs_inv=REPLACE_INV,
     fs_policy=REPLACE_POLICY,
@@ -171,7 +175,7 @@ for shape in ("Path", "str"):
         AT + "atomic_write_bytes", "C08",
         name="atomic_write_bytes" if shape == "Path" else "atomic_write_bytes[final_path:str]",
         types={"final_path": shape, "data": "str"},
-        ghost=GHOST,
+        ghost=GHOST, replay=REPLAY,
         fs_inv=W_INV, fs_policy=W_POLICY, call_pre=W_READY,
         ensures=W_ENSURES,
         ensures_exc=W_ENSURES_EXC + (W_LEAK if shape == "Path" else []),
@@ -184,7 +188,7 @@ for shape in ("Path", "str"):
 # atomic_replace is called" fails (reproduced natively with a short-writing handle: final == b"NEW" for b"NEWDATA")
 R.contract(
     AT + "atomic_write_bytes", "C08", name="atomic_write_bytes[short-write]", callee=False,
-    types={"final_path": "Path", "data": "str"}, ghost=GHOST, fs_opts={"short_write": True},
+    types={"final_path": "Path", "data": "str"}, ghost=GHOST, replay=REPLAY, fs_opts={"short_write": True},
     call_pre=W_READY,
     fs_inv=[W_INV[0]],
     raises=["OSError"],
@@ -198,14 +202,14 @@ KI_EXC = [("final-old-or-new", W_INV[0][1]),
 R.contract(
     AT + "atomic_replace", "C08", name="atomic_replace[KeyboardInterrupt]", callee=False,
     types={"tmp_path": "Path", "final_path": "Path", "retries": "int", "backoff_ms": "int"},
-    ghost=GHOST, fs_opts={"interrupt": True},
+    ghost=GHOST, replay=REPLAY, fs_opts={"interrupt": True},
     requires=[("tmp-not-final", "tmp_path != final_path"), ("backoff-nonneg", "backoff_ms >= 0")],
     fs_inv=REPLACE_INV, fs_policy=REPLACE_POLICY,
     raises=["OSError", "KeyboardInterrupt"],
 )
 R.contract(
     AT + "atomic_write_bytes", "C08", name="atomic_write_bytes[KeyboardInterrupt]", callee=False,
-    types={"final_path": "Path", "data": "str"}, ghost=GHOST, fs_opts={"interrupt": True},
+    types={"final_path": "Path", "data": "str"}, ghost=GHOST, replay=REPLAY, fs_opts={"interrupt": True},
     fs_inv=W_INV, fs_policy=W_POLICY,
     ensures=W_ENSURES, ensures_exc=KI_EXC,
     raises=["OSError", "KeyboardInterrupt"],
@@ -215,7 +219,7 @@ R.contract(
 
 R.contract(
     AT + "_fsync_best_effort", "C08", callee=False,
-    types={"path": "Path"}, ghost=GHOST,
+    types={"path": "Path"}, ghost=GHOST, replay=REPLAY,
     fs_inv=[("files-untouched", "seq_eq(fs, old(fs))")],
     ensures=[("files-untouched", "seq_eq(fs, old(fs))")],
     raises="none",          # directory fsync is optional: every OSError is swallowed
@@ -235,7 +239,7 @@ NOT_UTF8 = "not (encoding == 'utf-8' or encoding == 'utf8')"
 R.contract(
     AT + "atomic_write_text", "C08",
     types={"final_path": "Path", "text": "str", "encoding": "str", "newline": "str"},
-    ghost=GHOST,
+    ghost=GHOST, replay=REPLAY,
     fs_inv=_with_data(W_INV, TXT), fs_policy=W_POLICY,
     ensures=_with_data(W_ENSURES, TXT),
     ensures_exc=W_ENSURES_EXC,
@@ -253,7 +257,7 @@ R.contract(
     AT + "atomic_write_json", "C08",
     types={"final_path": "Path", "obj": "Un[JsonVal]", "sort_keys": "bool", "separators": "Tuple[str, str]",
            "ensure_ascii": "bool"},
-    ghost=GHOST,
+    ghost=GHOST, replay=REPLAY,
     fs_inv=_with_data(W_INV, JSON), fs_policy=W_POLICY,
     ensures=_with_data(W_ENSURES, JSON),
     ensures_exc=W_ENSURES_EXC,
@@ -278,3 +282,42 @@ def _tmpname_lemma():
 
 
 R.lemma("temp_name_invisible", "C08", _tmpname_lemma)
+
+# ------------------------------------------------------------------------------------------------ callers (frame, syntactic)
+
+CALLERS = ["clematis/engine/snapshot.py:write_snapshot", "clematis/engine/snapshot.py:_write_lines",
+           "clematis/engine/snapshot.py:_write_sidecar_meta", "clematis/io/log.py:rewrite_jsonl"]
+_DIRECT_WRITERS = {"replace", "rename", "renames", "move", "copyfile", "copy", "copy2", "write_text", "write_bytes",
+                   "truncate", "NamedTemporaryFile", "mkstemp"}
+
+
+def _callers_lemma():
+    """syntactic frame check on the *current* source of the four writers named by the property: the function body
+    (nested helpers are not followed) reaches its destination through atomic_write_* and contains no direct write:
+    no open() in a mode other than plain reading, no os.replace/rename/shutil.move/Path.write_*"""
+    import ast
+    from pyvc import frontend
+    goals = []
+    for key in CALLERS:
+        _, _, node = frontend.find_function(key)
+        uses_atomic, direct = False, []
+        for n in ast.walk(node):
+            if not isinstance(n, ast.Call):
+                continue
+            f = n.func
+            nm = f.id if isinstance(f, ast.Name) else (f.attr if isinstance(f, ast.Attribute) else "")
+            if nm.startswith("atomic_write_") or nm == "atomic_replace":
+                uses_atomic = True
+            if nm == "open":
+                mode = n.args[1] if len(n.args) > 1 else next((k.value for k in n.keywords if k.arg == "mode"), None)
+                if mode is not None and not (isinstance(mode, ast.Constant) and mode.value in ("r", "rb", "rt")):
+                    direct.append("open@%d" % n.lineno)
+            if nm in _DIRECT_WRITERS:
+                direct.append("%s@%d" % (nm, n.lineno))
+        short = key.split(":", 1)[1]
+        goals.append((short + "/writes-through-atomic_write", [], z3.BoolVal(uses_atomic)))
+        goals.append((short + "/no-direct-write" + ("[" + ",".join(direct) + "]" if direct else ""), [], z3.BoolVal(not direct)))
+    return goals
+
+
+R.lemma("callers_use_atomic_path", "C08", _callers_lemma)
